@@ -400,7 +400,7 @@ func Config(t *rapid.T) hist.Cfg {
 	}
 	c.GTID57 = rapid.Bool().Draw(t, "gtid57")
 	if rapid.Bool().Draw(t, "sv_std") {
-		c.ServerVersion = rapid.SampledFrom([]string{"5.6.33-log", "5.7.30-log", "8.0.28", "5.5.62", "10.1.48-MariaDB", ""}).Draw(t, "server_version")
+		c.ServerVersion = rapid.SampledFrom([]string{"5.6.33-log", "5.7.30-log", "8.0.28", "5.5.62", "10.1.48-MariaDB", "", "5.5.5-10.4.13-MariaDB-log", "5.5.5-", "5.5.5-m3-log", "8.0.36-0ubuntu0.22.04.1", "5.7.44-48-log"}).Draw(t, "server_version")
 	} else {
 		n := boundaryOr(t, "sv_len", 0, 50, 0, 1, 49, 50)
 		c.ServerVersion = strings.ReplaceAll(string(refenc.Blob{K: 7, S: rapid.Uint32().Draw(t, "sv_s"), N: n}.Bytes()), "\x00", "x")
